@@ -6,8 +6,8 @@
    TLC re-parses every string, checks that consecutive strings are related by the rewrite the
    step names (so neither the generator nor the replayer is trusted), and demands exactly the
    equalities the property states.  No score oracle is consulted.                            *)
-EXTENDS Api, Json, IOUtils, FiniteSets
-T == JsonDeserialize(IOEnv.TRACE_FILE)
+EXTENDS Api, Json, IOUtils, FiniteSets, TraceData
+T == TraceData
 VARIABLES i, ph
 Init == i \in 1..Len(T) /\ ph = 0
 Next == ph = 0 /\ ph' = 1 /\ i' = i
